@@ -251,6 +251,9 @@ impl<'a, E: Elem> GIter2<'a, E> {
                     }
                 }
                 infra(|| {
+                    // what the destination held before may be released any time until it is gone
+                    let old: Vec<u32> = dst.model.iter().copied().filter(|&id| E::HAS_ID && ledger::is_live(id)).collect();
+                    dst.deferred.extend(old);
                     dst.model = got.into_iter().collect();
                     dst.front = 0;
                 });
